@@ -29,13 +29,20 @@ SLICES = {
              "nested packages (depth 2), one int and one seq attribute per class"),
     "odd": (dict(prods=S("attr op tup lst dic proj oddproj bin".split()), pkg_depth=1,
                  seq_attrs=("jets",), int_attrs=("a", "pt")),
-            lambda q: T.has(q[1], {"idxv", "idxe", "keyv"}) or _has_absent_attr(q[1]),
+            lambda q: T.has(q[1], {"idxv", "idxe", "keyv", "idxw"}) or _has_absent_attr(q[1]),
             "literal/packaged projections with negative, slice, out-of-range, variable selectors "
             "and absent keys, in every operand position"),
     "oddapp": (dict(prods=S("attr op tup lst dic proj oddproj app const".split()), pkg_depth=1,
                     seq_attrs=("jets",), int_attrs=("a",), consts=(0, 1)),
                lambda q: T.has(q[1], {"idxe"}) and T.has(q[1], {"app", "op"}),
                "variable selectors that become constants only through substitution (called lambda / fused stage)"),
+    "oddapp2": (dict(prods=S("attr tup proj app2 const".split()), pkg_depth=2, seq_attrs=(), int_attrs=("a",), consts=(1,),
+                     max_pkg=2),
+                lambda q: T.has(q[1], {"app2"}) and T.has(q[1], {"idx"}),
+                "called two-parameter lambdas over tuples and constant projections (argument binding order)"),
+    "oddapp3": (dict(prods=S("tup proj app app2".split()), pkg_depth=1, max_pkg=2),
+                lambda q: T.has(q[1], {"app2"}) and T.has(q[1], {"app"}) and T.has(q[1], {"idx"}),
+                "a called lambda inside a called two-parameter lambda over tuples of ds (argument binding order, name re-use)"),
     "apply2": (dict(prods=S("attr op app2 appkw bin".split()), seq_attrs=("jets",), int_attrs=("a", "pt")),
                lambda q: T.has(q[1], {"app2"}),
                "called two-parameter lambdas (positional, mixed and keyword arguments) over operators"),
